@@ -483,6 +483,21 @@ def random_history(runner: Runner, length, sampler_like=False):
                     runner.op_get(sid, k)
                 if runner.partial_revert_allowed(sid) is not None:
                     runner.op_revert(sid, [rng.random() < 0.5 for _ in range(sh.nind)])
+        elif r < 0.83 and len(settable) >= 2:
+            # macro: forked assignment of A, un-forked assignment of another variable B, revert, read common descendants
+            a, b = rng.sample(settable, 2)
+            runner.op_mode(sid, rng.choice([1, 2]))
+            runner.op_set(sid, a, runner.random_value(a))
+            for k in rng.sample(sh.names, min(len(sh.names), rng.randrange(0, 3))):
+                runner.op_get(sid, k)
+            runner.op_mode(sid, 0)
+            runner.op_set(sid, b, runner.random_value(b))
+            if rng.random() < 0.5:
+                runner.op_mode(sid, 1)
+            runner.op_revert(sid)
+            common = sorted(sh.desc(a) & sh.desc(b)) or sh.names
+            for k in rng.sample(common, min(len(common), 3)):
+                runner.op_get(sid, k)
         elif r < 0.86 and next_sid < 4:
             runner.op_clone(sid, next_sid, rng.random() < 0.4, rng.random() < 0.5)
             next_sid += 1
